@@ -49,8 +49,15 @@ def client_program(rng, c, avoid, hc_names):
     if 'second_write_param' in avoid and any(op.get('kind') in ('parameter', 'computation') and 'values' in op.get('kwargs', {})
                                              for op in prog):
         nw = 1
+    ext = None
+    if rng.random() < 0.3 and 'merged_data' not in avoid:
+        # channel data supplied through write(data=...) instead of inline: by the first write only, by every write, or replaced
+        prog, ext = gen.externalize(prog, 'dict', rng, extras=False, permute=False)
+        ext_mode = rng.choice(['first_only', 'every', 'every'])
     for k in range(nw):
         w = gen.write_op(spec, path='c%d_%d.dlis' % (c, k), ocs=rng.choice([spec.mrl, spec.mrl + 64, 1 << 20]))
+        if ext is not None and (k == 0 or ext_mode == 'every'):
+            w['data'] = ext
         if rng.random() < 0.3:
             w['input_chunk_size'] = rng.choice([1, 2, 5])
         prog.append(w)
